@@ -85,6 +85,10 @@ pub fn tables(level: Level) -> Vec<Type> {
         let n = 2;
         out.push(table(n, masked, &[("a", vec![], UINT8), ("c", vec![], UINT64)], Some(1)));
         out.push(table(n, masked, &[("b", vec![], UINT8)], Some(0)));
+        // two columns of one type under both orders: with the header maps a->b, b->b, a->a these give every
+        // "a column name of one table is a key / a data column of the other table" combination
+        out.push(table(n, masked, &[("a", vec![], UINT8), ("b", vec![], UINT8)], Some(0)));
+        out.push(table(n, masked, &[("b", vec![], UINT8), ("a", vec![], UINT8)], Some(0)));
         out.push(table(n, masked, &[("b", vec![2], INT32), ("c", vec![1], BIT)], Some(2)));
         out.push(table(n, masked, &[("k", vec![2], BIT), ("a", vec![], UINT8)], Some(0)));
         out.push(table(3, masked, &[("k", vec![1], BIT), ("b", vec![2, 2], INT128)], Some(0)));
